@@ -97,6 +97,8 @@ def _spawned_by(i, idx, actions, recs, strict=False):
         a = actions[j]
         if a[0] == 'S' and a[1] == i and f'sr{i}' not in recs[j]['obs']:
             return True
+        if any(m == i for m, _oc in TG.adds_of(a)):
+            return True         # an already finished task put into the group by this call
     upto = idx if strict else idx + 1
     seen = {o for r in recs[:upto] for o in r['obs']}
     for a in actions[:idx + 1]:
@@ -135,8 +137,19 @@ def gen_runs(ctx, n, steps=14):
 def parse_actions(text):
     acts = []
     for tok in text.split(';')[1:]:
-        f = tok.split()
+        parts = [x.split() for x in tok.split('+')]
+        # `S i 0 - + F i oc - + ... + <J|E|N>`: tasks that had already finished, added by the call
+        adds = tuple((int(parts[n][1]), parts[n + 1][2]) for n in range(0, len(parts) - 1, 2))
+        f = parts[-1]
         k = f[0]
+        if adds:
+            if k == 'J':
+                acts.append(('J', adds))
+            elif k == 'E':
+                acts.append(('E', {'0': False, '1': True, 'c': 'c'}[f[1]], adds))
+            elif k == 'N':
+                acts.append(('N', int(f[1]), adds))
+            continue
         if k == 'S':
             ch = tuple((int(c.split(':')[0]), c.split(':')[1] == '1')
                        for c in f[3].split(',')) if f[3] != '-' else ()
